@@ -414,4 +414,82 @@ theorem per_actor_clientSeq_ordered (cfg : Config) (evs : List Event) (s : Serve
     simp only [csOf, ownRows, hlog] at this
     exact this
 
+
+/-! ### the client's checkpoint (`Checkpoint.Forward`, applied to every response pack) is a join (added)
+
+The client folds `Forward` over the checkpoints of the responses it receives.  Whatever the order in which
+responses arrive, and however often one is delivered, the client's checkpoint is the componentwise maximum:
+it never moves backwards and never exceeds what the server answered.  (Tie: engine `time`, `CP forward` lines.) -/
+
+theorem forward_eq_max (c o : Checkpoint) :
+    c.forward o = ⟨max c.serverSeq o.serverSeq, max c.clientSeq o.clientSeq⟩ := by
+  unfold Checkpoint.forward
+  split
+  · rename_i h; subst h; simp
+  · rfl
+
+theorem forward_idem (c : Checkpoint) : c.forward c = c := by simp [Checkpoint.forward]
+
+theorem forward_comm (c o : Checkpoint) : c.forward o = o.forward c := by
+  rw [forward_eq_max, forward_eq_max, Int.max_comm, Nat.max_comm]
+
+theorem forward_assoc (a b c : Checkpoint) : (a.forward b).forward c = a.forward (b.forward c) := by
+  simp only [forward_eq_max, Int.max_assoc, Nat.max_assoc]
+
+/-- never backwards, in either component, whatever the response says -/
+theorem forward_monotone (c o : Checkpoint) :
+    c.serverSeq ≤ (c.forward o).serverSeq ∧ c.clientSeq ≤ (c.forward o).clientSeq ∧
+    o.serverSeq ≤ (c.forward o).serverSeq ∧ o.clientSeq ≤ (c.forward o).clientSeq := by
+  rw [forward_eq_max]
+  exact ⟨Int.le_max_left _ _, Nat.le_max_left _ _, Int.le_max_right _ _, Nat.le_max_right _ _⟩
+
+/-- a duplicated response changes nothing -/
+theorem forward_absorb (c o : Checkpoint) : (c.forward o).forward o = c.forward o := by
+  rw [forward_assoc, forward_idem]
+
+/-- the client's checkpoint after any sequence of responses never exceeds a bound that every response (and the
+    starting checkpoint) respects: with `bound` = the log head, "never ahead of the server" -/
+theorem forward_fold_bounded (rs : List Checkpoint) (c : Checkpoint) (hs : Int) (hc : Nat)
+    (h0 : c.serverSeq ≤ hs ∧ c.clientSeq ≤ hc) (h : ∀ r ∈ rs, r.serverSeq ≤ hs ∧ r.clientSeq ≤ hc) :
+    (rs.foldl Checkpoint.forward c).serverSeq ≤ hs ∧ (rs.foldl Checkpoint.forward c).clientSeq ≤ hc := by
+  induction rs generalizing c with
+  | nil => exact h0
+  | cons r rest ih =>
+    simp only [List.foldl_cons]
+    apply ih
+    · rw [forward_eq_max]
+      have hr := h r (List.mem_cons_self ..)
+      exact ⟨Int.max_le.mpr ⟨h0.1, hr.1⟩, Nat.max_le.mpr ⟨h0.2, hr.2⟩⟩
+    · intro x hx; exact h x (List.mem_cons_of_mem _ hx)
+
+/-- … and never falls below where it started or below any response it has folded in -/
+theorem forward_fold_ge (rs : List Checkpoint) (c : Checkpoint) :
+    (c.serverSeq ≤ (rs.foldl Checkpoint.forward c).serverSeq ∧ c.clientSeq ≤ (rs.foldl Checkpoint.forward c).clientSeq) ∧
+    ∀ r ∈ rs, r.serverSeq ≤ (rs.foldl Checkpoint.forward c).serverSeq ∧ r.clientSeq ≤ (rs.foldl Checkpoint.forward c).clientSeq := by
+  induction rs generalizing c with
+  | nil => exact ⟨⟨Int.le_refl _, Nat.le_refl _⟩, by simp⟩
+  | cons r rest ih =>
+    simp only [List.foldl_cons]
+    obtain ⟨⟨h1, h2⟩, h3⟩ := ih (c.forward r)
+    obtain ⟨m1, m2, m3, m4⟩ := forward_monotone c r
+    refine ⟨⟨Int.le_trans m1 h1, Nat.le_trans m2 h2⟩, ?_⟩
+    intro x hx
+    rcases List.mem_cons.mp hx with rfl | hx
+    · exact ⟨Int.le_trans m3 h1, Nat.le_trans m4 h2⟩
+    · exact h3 x hx
+
+/-- responses delivered in ANY order (a permutation: late, overtaken answers) give the same client checkpoint -/
+theorem forward_fold_perm {rs₁ rs₂ : List Checkpoint} (hp : rs₁.Perm rs₂) (c : Checkpoint) :
+    rs₁.foldl Checkpoint.forward c = rs₂.foldl Checkpoint.forward c := by
+  induction hp generalizing c with
+  | nil => rfl
+  | cons x _ ih => simp only [List.foldl_cons]; exact ih _
+  | swap x y l =>
+    simp only [List.foldl_cons]
+    rw [forward_assoc, forward_comm y x, ← forward_assoc]
+  | trans _ _ ih₁ ih₂ => rw [ih₁, ih₂]
+
+example : (Checkpoint.mk 3 7).forward ⟨5, 2⟩ = ⟨5, 7⟩ := by decide
+example : [Checkpoint.mk 5 2, ⟨4, 9⟩, ⟨5, 2⟩].foldl Checkpoint.forward ⟨3, 7⟩ = ⟨5, 9⟩ := by decide
+
 end Yorkie.Props.C04
